@@ -310,6 +310,8 @@ class Interp(ExprMixin):
         return h(self, st, args, kwargs, node)
 
     def call_internal(self, f, args, kwargs, st, node, self_val=None):
+        if f.is_static:
+            self_val = None
         if f.cls is not None and self_val is None and not f.is_static and not f.is_classmethod \
                 and args and f.params() and f.params()[0][0] == 'self':
             self_val, args = args[0], args[1:]
@@ -368,9 +370,12 @@ class Interp(ExprMixin):
         if cls is not None:
             f = cls.find_method(name)
             if f is not None:
-                return self.call_internal(f, args, kwargs, st, node, self_val=recv)
+                return self.call_internal(f, args, kwargs, st, node, self_val=None if f.is_static else recv)
             if name not in cls.attr_names():
                 self.note(st, 'B1', node, what=f'{cls.key} has no attribute {name!r}')
+        if isinstance(recv, Const) and isinstance(recv.value, str) and name in ('lower', 'upper', 'strip') \
+                and all(isinstance(a, Const) and isinstance(a.value, str) for a in args):
+            return Const(getattr(recv.value, name)(*[a.value for a in args]))
         ra = recv.single_atom() if isinstance(recv, Poly) else None
         if ra is not None and ra[0] == 'app' and ra[1] == 'kwargs' and name in ('pop', 'get') and args:
             for pr in ra[2]:
@@ -686,6 +691,7 @@ class Interp(ExprMixin):
         info = {'node': s, 'func': self.cur.key, 'iter': it, 'pre': pre,
                 'phi': {n: Poly.atom(('loop', f'{n}@{self.cur.name}:{line}', 'phi')) for n in names},
                 'ends': [{n: b.env.get(n) for n in names} for b in body_states],
+                'states': body_states, 'n_pre_events': len(st.events), 'n_pre_conds': len(st.conds),
                 'conds': [b.conds[len(st.conds):] for b in body_states]}
         out = st
         seen = {id(e) for e in out.events}
